@@ -11,10 +11,10 @@ void harness(void)
 {
   static const char *shape[2] = { SHAPE0, SHAPE1 };
   ares_server_t     *srv[2];
-  ares_conn_t       *conns[4];
-  ares_socket_t      fds[4];
-  int                busy[4], tcp[4], owner[4], maxed[4], nconn = 0, i, ns = NS, k;
-  ares_query_t      *qs[4];
+  ares_conn_t       *conns[8];
+  ares_socket_t      fds[8];
+  int                busy[8], tcp[8], owner[8], maxed[8], nconn = 0, i, ns = NS, k;
+  ares_query_t      *qs[8];
 
   M_init();
   M_ch.flags           = vp_bool() ? ARES_FLAG_STAYOPEN : 0;
